@@ -85,6 +85,28 @@ def _asan_site(stderr):
     rw = re.search(r'\n(READ|WRITE) of size (\d+)', stderr)
     return kind, (frames[0] if frames else 'unknown'), (rw.group(1) if rw else ''), frames
 
+_fault_cache = {}
+def fault_frames(res):
+    """provenance of an injected resource failure: the library functions (innermost first) that asked for the allocation or thread
+    that was refused (SIMFAULT line printed by the simulator when the fault fires, so it survives a later crash)"""
+    fr = res.get('fault_raw')
+    if not fr:
+        return []
+    key = (fr['variant'], fr['pcs'])
+    if key in _fault_cache:
+        return _fault_cache[key]
+    try:
+        p = subprocess.run([SYMBOLIZER, '--obj=' + binary(fr['variant']), '--functions=linkage', '--no-inlines', '--relative-address'] + fr['pcs'].split(','), capture_output=True, text=True, timeout=60)
+    except Exception:
+        return []
+    frames = []
+    for b in [b for b in p.stdout.split('\n\n') if b.strip()]:
+        ls = b.strip().split('\n')
+        if len(ls) >= 2 and '/Source/' in ls[1]:
+            frames.append('%s@%s' % (ls[0], os.path.basename(ls[1].split(':')[0])))
+    _fault_cache[key] = frames
+    return frames
+
 def _symbolize_crash(stderr, variant):
     """function-level crash site on the sanitizer-free build: the harness prints pc + frame-pointer chain (image-relative),
     llvm-symbolizer resolves them; returns ['func@file', ...] for frames inside the repository's sources"""
@@ -199,6 +221,9 @@ def run_case(case, variant='plain', timeout=None, keep=False):
             ub.append('%s:%s %s' % (os.path.basename(path), m.group(2), re.sub(r'-?\d[\d.e+]*', 'N', m.group(4))[:80]))
     res['ubsan'] = sorted(set(ub))
     res['simwarn'] = sorted(set(re.findall(r'SIMWARN (.*)', err)))[:10]
+    mf = re.search(r'SIMFAULT (\w+) seq=(\d+) pcs=([0-9a-fx,]+)', err)
+    if mf:   # symbolised on demand (fault_frames): most fault runs end in a clean error return and never need it
+        res['fault_raw'] = {'kind': mf.group(1), 'seq': int(mf.group(2)), 'pcs': mf.group(3), 'variant': variant}
     res['wall_s'] = wall
     res['rc'] = rc
     if keep:
